@@ -291,6 +291,12 @@ func (c *c18) oneCase(t *Target, caseID string, vals []zed.Value, safe bool) {
 				Replay: c.replay(t, caseID, vals, f), Expected: "terminates with an error", Observed: "hung"})
 			return
 		}
+		if out.Panic != "" && f.Mode == ShortNil {
+			// informational: the sink broke the io.Writer contract (n < len(p) with a
+			// nil error); seen: the parquet library panics "failed to write magic number"
+			res.Count("shortnil_panic:" + t.Name)
+			return
+		}
 		if out.Panic != "" {
 			res.Fail(Failure{Kind: "panic", Sig: "C18 panic " + sigTail, Detail: fmt.Sprintf("%s: fault %s made the writer panic: %s", t.Name, f, out.Panic),
 				Replay: c.replay(t, caseID, vals, f), Expected: "an error is returned", Observed: out.Panic})
@@ -457,6 +463,14 @@ func (c *c18) completeOracle(t *Target, caseID string, vals []zed.Value, base *R
 			got, err := readBack("json", b)
 			if err != nil || len(got) != m {
 				fail("json-count", fmt.Sprintf("%d JSON values", m), fmt.Sprintf("%d values, err=%v", len(got), err))
+			}
+		case "arrows", "parquet":
+			// complete = the repository's own reader accepts it and finds every value
+			if m > 0 {
+				got, err := readBack(t.Format, b)
+				if err != nil || len(got) != m {
+					fail(t.Format+"-count", fmt.Sprintf("%d values", m), fmt.Sprintf("%d values, err=%v", len(got), err))
+				}
 			}
 		case "tsv", "csv":
 			// the delimiter option reaches the encoder
@@ -764,7 +778,7 @@ func (c *c18) copyLoops(r *Rng) {
 
 func (c *c18) targets() []*Target {
 	var ts []*Target
-	formats := []string{"zng", "zson", "zjson", "json", "csv", "tsv", "zeek", "table", "text", "vng", "lake"}
+	formats := []string{"zng", "zson", "zjson", "json", "csv", "tsv", "zeek", "table", "text", "vng", "lake", "arrows", "parquet"}
 	for _, f := range formats {
 		nv := 1
 		switch f {
@@ -777,7 +791,7 @@ func (c *c18) targets() []*Target {
 			ts = append(ts, directTarget(f, v))
 		}
 	}
-	for _, f := range []string{"zng", "zson", "zjson", "json", "csv", "zeek", "table", "text", "vng"} {
+	for _, f := range []string{"zng", "zson", "zjson", "json", "csv", "zeek", "table", "text", "vng", "arrows", "parquet"} {
 		nv := 1
 		if f == "zng" {
 			nv = 5
@@ -786,7 +800,7 @@ func (c *c18) targets() []*Target {
 			ts = append(ts, bufTarget(f, v))
 		}
 	}
-	for _, f := range []string{"zng", "zson", "zjson", "json", "csv", "tsv", "zeek", "table", "text", "vng"} {
+	for _, f := range []string{"zng", "zson", "zjson", "json", "csv", "tsv", "zeek", "table", "text", "vng", "arrows", "parquet"} {
 		ts = append(ts, emitterTarget(f, 0, false), emitterTarget(f, 0, true))
 		if f == "zng" {
 			ts = append(ts, emitterTarget(f, 3, false), emitterTarget(f, 3, true))
